@@ -73,12 +73,29 @@ def check_assembly(case, ctx):
     panels = [pkg.make_panel(pc) for pc in case['panels']]
     plist = [panels[i] for i in case['order']]
     inc = case['inc']
+    pre = case.get('prelude')
     for p, pc in zip(panels, case['panels']):
         for f in pc['forces']:
-            p.add_force(f['x'] * p.a, f['y'] * p.b, f['fx'], f['fy'], f['fz'], cte=f['cte'])
+            s0 = pre['factor'] if pre else 1.
+            p.add_force(f['x'] * p.a * (0.5 if pre else 1.), f['y'] * p.b, f['fx'] * s0, f['fy'], f['fz'] * s0 + (1. if pre else 0.), cte=f['cte'])
     with package(name):
         ass = PanelAssembly(plist)
         size = ass.get_size()
+        if pre:
+            # the assembly was already asked for its load vector under other loads; the forces are then edited in place (same number
+            # of forces per panel), as in a load-case sweep
+            ass.calc_fext(inc=pre['inc'], silent=True)
+            for p, pc in zip(panels, case['panels']):
+                kc = ki = 0
+                for f in pc['forces']:
+                    new = [f['x'] * p.a, f['y'] * p.b, f['fx'], f['fy'], f['fz']]
+                    if f['cte']:
+                        p.forces[kc][:] = new
+                        kc += 1
+                    else:
+                        p.forces_inc[ki][:] = new
+                        ki += 1
+            ctx.label('object:forces-edited-after-first-calc_fext')
         fext = np.asarray(ass.calc_fext(inc=inc, silent=True))
     ctx.nontrivial = True
     ctx.label('panels:%d' % len(panels), 'reordered' if case['order'] != sorted(case['order']) else 'in-order')
@@ -360,7 +377,8 @@ def _assembly_strategy(draw, tier='quick'):
         pc['forces'] = draw(st.lists(force(), min_size=0, max_size=3))
         panels.append(pc)
     order = draw(st.permutations(list(range(npan))))
-    return {'panels': panels, 'order': list(order), 'inc': draw(gen.fl(0.01, 2.)), 'dseed': draw(st.integers(0, 2 ** 20))}
+    pre = {'factor': draw(gen.fl(-3., 3.)), 'inc': draw(st.sampled_from([1., 0.4]))} if draw(st.integers(0, 2)) == 0 else None
+    return {'panels': panels, 'order': list(order), 'inc': draw(gen.fl(0.01, 2.)), 'dseed': draw(st.integers(0, 2 ** 20)), 'prelude': pre}
 
 
 @st.composite
